@@ -426,6 +426,12 @@ def run_traced(name, spec, seed, size, budgets, evaluator="map", explicit=False,
                 _orig(solutions)
                 tr.events.append(("batch_end", [tr.snap(s) for s in sols], alg.nfe))
             alg.evaluate_all = traced_evaluate_all
+            orig_init = alg.initialize
+
+            def traced_initialize(_orig=orig_init):
+                tr.inits = getattr(tr, "inits", 0) + 1          # how often the algorithm (re)built its initial state
+                return _orig()
+            alg.initialize = traced_initialize
 
             def cb(a):
                 ex = exposed(a) if collect_steps else {}
